@@ -18,6 +18,36 @@ def decode(p):
         return p
 
 
+def _race_pass(ctx):
+    """the concurrent kind once more under Go's race detector: a race on a MAP of the debugger / provider
+    (runtime.mapaccess/mapassign/mapiter/mapdelete in the report) is a latent "fatal error: concurrent map …",
+    i.e. a crash of the debugged process that the plain run only hits by luck of timing"""
+    import re
+    import shutil
+    res = {"ran": False}
+    ctx.race_result = res
+    try:
+        modfile = os.path.join(ctx.work, "go-race.mod")
+        src = open(os.path.join(checklib.GO, "go.mod")).read()
+        open(modfile, "w").write(re.sub(r"=> /repo\b", "=> " + checklib.REPO, src))
+        shutil.copy(os.path.join(checklib.REPO, "go.sum"), os.path.join(ctx.work, "go-race.sum"))
+        binr = os.path.join(ctx.work, "harness-race")
+        env = dict(checklib.GOENV, CGO_ENABLED="1")
+        rc, out = checklib.sh(["go", "build", "-race", "-tags", "verif", "-modfile=" + modfile, "-o", binr, "./cmd/harness"],
+                              cwd=checklib.GO, env=env, timeout=900)
+        if rc != 0:
+            res["error"] = "race build failed: " + out[-300:]
+            return
+        p = subprocess.run([binr, "C16", "-one", "conc 1 0"], cwd=ctx.work, env=dict(env, GORACE="halt_on_error=0"),
+                           stdout=subprocess.PIPE, stderr=subprocess.STDOUT, text=True, errors="replace", timeout=600)
+        blocks = [b for b in p.stdout.split("==================") if "DATA RACE" in b]
+        maps = [b for b in blocks if re.search(r"runtime\.map(access|assign|iter|delete)", b)]
+        res.update(ran=True, data_races=len(blocks), map_races=len(maps), first=maps[0].strip()[:3000] if maps else "",
+                   result=[l for l in p.stdout.splitlines() if l.startswith("R:")][:1])
+    except Exception as e:  # the pass must not take the check down
+        res["error"] = repr(e)[:300]
+
+
 def extract(ctx):
     """regenerate lean/Ecal/Gen/C16.lean (DebugCommandsMap + argument-count tests) from the tree under test"""
     binp = checklib.go_build(ctx)
@@ -30,6 +60,22 @@ def extract(ctx):
         os.remove(out)
     with open(out, "w") as f:
         f.write(p.stdout)
+    import threading
+    ctx.race_thread = threading.Thread(target=_race_pass, args=(ctx,))
+    ctx.race_thread.start()
+    # three-valued facts: what the extractor could not establish is a note and amplifies the search
+    import re
+    txt = p.stdout
+    unknown = re.findall(r'\("([^"]*)", "([^"]*)"\)', txt.split("def lockUnknown")[1]) if "def lockUnknown" in txt else [("?", "no lock facts")]
+    unknown += [(k, "argument-count test not understood") for k, _, t in
+                re.findall(r'\("([^"]*)", "([^"]*)", "([TF?]*)"\)', txt.split("def lockDiscipline")[0]) if "?" in t]
+    verdicts = dict(re.findall(r'\("([^"]*)", "(established|refuted|unknown)"\)', txt))
+    ctx.coverage["fact_lock_discipline"] = {v: sorted(k for k in verdicts if verdicts[k] == v) for v in set(verdicts.values())}
+    ctx.coverage["fact_lock_refuted"] = re.findall(r'\("([^"]*)", "([^"]*)"\)', txt.split("def lockRefuted")[1].split("def lockUnknown")[0]) if "def lockRefuted" in txt else []
+    if unknown:
+        ctx.notes.append("facts NOT ESTABLISHED (no obligation broken by that): " + "; ".join(f"{a}: {b}" for a, b in unknown[:6]) +
+                         " — the concurrent kind and the history sample are amplified (4x) in this run")
+        checklib.GOENV["C16_AMPLIFY"] = "1"
 
 
 SPEC = dict(
@@ -54,7 +100,7 @@ SPEC = dict(
     ],
     assumptions=[
         "running threads are observed while blocked in a registered Go function (deterministic); no command is issued while a thread is between two states",
-        "evaluating the `inject` expression itself does not panic or block (C06)",
+        "evaluating the `inject` expression does not panic (C06); what it does otherwise (calls program functions, does not return) is an outcome the theorems quantify over",
     ],
     decode=decode,
 )
@@ -67,9 +113,38 @@ META = dict(
                 "`status`; the two guards of a44f74f are necessary (witnesses). Model tied to the code by the regenerated command "
                 "table (keys, types, argument-count tests) and a reply-class differential over scenarios x command lines."),
     level_note=("Trusted: Lean kernel + propext/Classical.choice/Quot.sound; the correspondence harness; JSON-encodability of the "
-                "result is tested (json.Marshal on every reply), not proved; expression evaluation and container paths are oracles."),
+                "result is tested (json.Marshal on every reply), not proved (only error data is modelled); replies that alias live tables and concurrent commands are tested (concurrent kind), not modelled; expression evaluation and container paths are oracles."),
 )
 
 
+def post(ctx, cases, gores, model):
+    """cases the harness could not record or skipped after repeated hangs are compared as equal on both
+    sides: they are counted, and a run that is otherwise clean must not have any"""
+    n = sum(1 for i in cases if gores.get(i) == "RECORD-TIMEOUT")
+    ctx.coverage["uncompared_cases"] = n
+    ctx.uncompared = n
+
+
+SPEC["post"] = post
+
+
 def run(ctx):
-    return checklib.standard(ctx, SPEC)
+    rc = checklib.standard(ctx, SPEC)
+    if getattr(ctx, "race_thread", None):
+        ctx.race_thread.join()
+        r = ctx.race_result
+        ctx.coverage["race_pass"] = {k: r.get(k) for k in ("ran", "data_races", "map_races", "result", "error") if k in r}
+        if r.get("map_races"):
+            rp = checklib.write_replay(ctx, "race", {"payload": "conc 1 0", "readable": "concurrent commands under the race detector",
+                                                     "report": r["first"]},
+                                       "no data race on a map of the debugger / provider", f"{r['map_races']} map races",
+                                       "go build -race -tags verif ./cmd/harness && GORACE=halt_on_error=0 harness C16 -one 'conc 1 0'")
+            checklib.violation(ctx, rp, "data race on a map (latent fatal 'concurrent map …' crash): " +
+                               " / ".join(l.strip() for l in r["first"].splitlines() if "ecalDebugger" in l or "Runtime)" in l)[:200])
+            rc = 1
+        elif not r.get("ran"):
+            ctx.notes.append("race pass did not run: " + str(r.get("error")))
+        checklib.write_evidence(ctx)
+    if rc == 0 and getattr(ctx, "uncompared", 0) > 0:
+        raise checklib.CheckError(f"{ctx.uncompared} cases were not compared (recording timed out) although no disagreement was seen")
+    return rc
